@@ -304,6 +304,25 @@ tree_only:
       stdout = m2; dump_node(cl); fflush(m2); stdout = sv; fclose(m2);
       printf(" nindep=%d", (l1 == l2 && !memcmp(d1, d2, l1)) ? 1 : 0);
       free(d1); free(d2);
+      // the other direction: overwrite the CLONE, print the source again
+      d1 = d2 = 0; l1 = l2 = 0;
+      m1 = open_memstream(&d1, &l1);
+      stdout = m1; dump_node(tree); fflush(m1); stdout = sv; fclose(m1);
+      sp = 0;
+      stack[sp++] = cl;
+      while (sp) {
+        struct jbl_node *n = stack[--sp];
+        if (n->key) memset((char*) n->key, 'Q', n->klidx);
+        if (n->type == JBV_STR) memset((char*) n->vptr, 'R', n->vsize);
+        else if (n->type == JBV_I64) n->vi64 ^= 0x3333;
+        else if (n->type == JBV_BOOL) n->vbool = !n->vbool;
+        else if (n->type == JBV_F64) n->vf64 = 54321.5;
+        for (struct jbl_node *c = n->child; c && sp < 4096; c = c->next) stack[sp++] = c;
+      }
+      m2 = open_memstream(&d2, &l2);
+      stdout = m2; dump_node(tree); fflush(m2); stdout = sv; fclose(m2);
+      printf(" nindep2=%d", (l1 == l2 && !memcmp(d1, d2, l1)) ? 1 : 0);
+      free(d1); free(d2);
     }
     iwpool_destroy(p2);
   }
@@ -429,11 +448,25 @@ static iwrc api_fill(struct jbl_node *dst, struct jbl_node *src, struct iwpool *
 
 // binary document built member by member through jbl_set_* / jbl_set_nested
 static unsigned SET_ALT;
+// SET_READS: a read of the document under construction after every jbl_set_* call (a builder history interleaved with
+// reads): each read makes binn_save_header write the header and clears `dirty`, so the NEXT jbl_set_* call has to mark the
+// document dirty again - also when the value has no payload (null / true / false)
+static int SET_READS;
+static unsigned SET_RD;
+static void read_touch(struct jbl *j) {
+  switch (SET_RD++ % 3) {
+    case 0: { void *b; size_t sz; jbl_as_buf(j, &b, &sz); break; }
+    case 1: { struct iwxstr *x = iwxstr_create_empty(); jbl_as_json(j, jbl_xstr_json_printer, x, 0); iwxstr_destroy(x); break; }
+    default: { struct jbl *c = 0; if (!jbl_clone(j, &c) && c) jbl_destroy(&c); break; }
+  }
+}
 static iwrc set_build(struct jbl **out, struct jbl_node *src) {
   iwrc rc = src->type == JBV_OBJECT ? jbl_create_empty_object(out) : jbl_create_empty_array(out);
   if (rc) return rc;
   struct jbl *j = *out;
+  if (SET_READS) read_touch(j);
   for (struct jbl_node *c = src->child; c && !rc; c = c->next) {
+    if (SET_READS && c != src->child) read_touch(j);
     const char *key = src->type == JBV_OBJECT ? c->key : 0;
     switch (c->type) {
       case JBV_NULL: rc = jbl_set_null(j, key); break;
@@ -546,6 +579,9 @@ static int build_prods(struct prods *ps, const char *dump, const char *text, str
   }
   if (!ps->has_nul) {     // jbl_set_string takes a C string
     j = 0; rc = set_build(&j, hand); add_b(ps, "B.set", j, rc, 1);
+    SET_READS = 1;
+    j = 0; rc = set_build(&j, hand); add_b(ps, "B.setr", j, rc, 1);
+    SET_READS = 0;
   }
   // ---- tree producers
   add_t(ps, "T.hand", hand, 0);
@@ -799,6 +835,70 @@ static void put_bytes(struct jbl *j) {
   if (rc) printf("ERR-%s", rcname(rc)); else puthex(b, sz);
 }
 
+// ---------------------------------------------------------------- clone independence, both directions
+// A fresh source document of each kind is cloned by jbl_clone / jbl_clone_into_pool; then the SOURCE is changed (a member /
+// element is added) and the clone is read; then the CLONE is changed and the source is read.  The answer of a cell is
+//   [ALIAS:]<rc of the change of the source>:<rc of the change of the clone>:<clone after the source changed>,<source after
+//   the clone changed>,<clone after it was changed itself>
+// ALIAS: the clone is writable and writes into the buffer (pbuf) of its source - reported and disarmed (the clone is made
+// read-only) before anything is changed, so that the run can go on.
+static iwrc ind_change(struct jbl *j, const char *key, int64_t v) {
+  return jbl_set_int64(j, jbl_type(j) == JBV_OBJECT ? key : 0, v);
+}
+
+static void ind_cells(struct prods *ps, const char *text, struct iwpool *pool) {
+  static const char *kinds[] = { "S.node", "S.buf", "S.set", "S.setr", "S.json", 0 };
+  for (int k = 0; kinds[k]; ++k) {
+    for (int fn = 0; fn < 2; ++fn) {
+      const char *cons = fn ? "indp" : "indc";
+      struct jbl *src = 0, *cl = 0;
+      void *copy = 0;
+      iwrc rc = 0;
+      switch (k) {
+        case 0: rc = jbl_from_node(&src, ps->hand); break;
+        case 1: {
+          struct jbl *t = 0;
+          rc = jbl_from_node(&t, ps->hand);
+          if (!rc) {
+            size_t sz = 0;
+            copy = bytes_copy(t, &sz);
+            rc = copy ? jbl_from_buf_keep(&src, copy, sz, false) : IW_ERROR_FAIL;
+            if (rc && copy) free(copy);
+          }
+          if (t) jbl_destroy(&t);
+          break;
+        }
+        case 2: if (ps->has_nul) continue; rc = set_build(&src, ps->hand); break;
+        case 3: if (ps->has_nul) continue; SET_READS = 1; rc = set_build(&src, ps->hand); SET_READS = 0; break;
+        default: if (!text) continue; rc = jbl_from_json(&src, text); break;
+      }
+      if (!rc) rc = fn ? jbl_clone_into_pool(src, &cl, pool) : jbl_clone(src, &cl);
+      cb();
+      if (rc || !src || !cl) {
+        printf("ERR-%s", rcname(rc ? rc : IW_ERROR_FAIL));
+      } else {
+        if (cl->bn.writable && cl->bn.pbuf && cl->bn.pbuf == src->bn.pbuf) {
+          printf("ALIAS:");
+          cl->bn.writable = 0;
+        }
+        iwrc r1 = ind_change(src, "\001s", 77);
+        char *d1 = 0; size_t l1 = 0;
+        FILE *sv = stdout, *m1 = open_memstream(&d1, &l1);
+        stdout = m1; dump_jbl(cl, pool); fflush(m1); stdout = sv; fclose(m1);
+        iwrc r2 = ind_change(cl, "\001c", 88);
+        printf("%s:%s:%s,", rcname(r1), rcname(r2), d1);
+        free(d1);
+        dump_jbl(src, pool);
+        putchar(',');
+        dump_jbl(cl, pool);
+      }
+      ce(cons, kinds[k]);
+      if (cl && !fn) jbl_destroy(&cl);
+      if (src) jbl_destroy(&src);
+    }
+  }
+}
+
 static void mx_value(struct prods *ps, struct iwpool *pool) {
   static const char *tn[] = { "dump", "js", "jsp", "eq", "len", "tb", "cl", 0 };
   static const char *bn[] = { "buf", "js", "jsp", "n1", "n0", "cnt", "it", "bcl", "bclp", 0 };
@@ -968,6 +1068,7 @@ int main(void) {
       if (!build_prods(&ps, tv[1], (char*) txt, pool)) printf("BAD-DUMP"); else {
         printf("flags=%d%d", ps.has_nul, ps.keys_alnum);
         mx_value(&ps, pool);
+        ind_cells(&ps, (char*) txt, pool);
         cells_flush();
         drop_prods(&ps);
       }
